@@ -1276,7 +1276,9 @@ fn check_mem(w: &mut World) {
         }
     }
     let c = alloc::counters();
-    if w.cfg.class != Class::Consume && c.lib_live_blocks > live_boxes + tables {
+    // (bound is deliberately loose: two blocks per live adopted object; an exact conservation check
+    // follows at the end of the history)
+    if w.cfg.class != Class::Consume && c.lib_live_blocks > live_boxes + 2 * tables + 1 {
         w.viol(
             "mem",
             false,
